@@ -62,6 +62,10 @@ class Check:
             vac = 'VACUOUS: evaluations=%d distinct outcomes=%d (need >=%d / >=%d)' % (self.cov['evaluations'], len(self.outcomes), min_eval, min_outcomes)
         self.cov['distinct_outcomes'] = len(self.outcomes)
         self.cov['flaky_reruns'] = self.flakes
+        try:
+            from . import runner as _r
+            self.cov['max_case_ms'] = round(_r.STATS['max_case_ms'], 1); self.cov['case_time_limit_s'] = _r.CASE_TLIMIT
+        except Exception: pass
         ev = dict(property_id=self.pid, tier=self.tier, seed=self.seed, level=self.level, coverage=self.cov,
                   assumptions=self.assumptions, wall_s=round(time.time() - self.t0, 2), violations=nviol)
         os.makedirs(os.path.join(OUT, 'evidence'), exist_ok=True)
